@@ -29,7 +29,8 @@
 (***************************************************************************)
 EXTENDS TdfTornCore, TLC
 
-CONSTANTS N, Types, KS
+CONSTANTS N, Types, KS,
+          AddOrder    \* "lib": the order of the library; "bytes_first": a what-if (see TornSoundAdd)
 
 TE == HDR + ENT * N
 TypeOfU(u) == u \div 10
@@ -62,7 +63,8 @@ Setup(k) == /\ op.k = "init" /\ k <= N /\ k <= Cardinality(Types)
 
 Idle == op.k = "none" /\ ~torn
 BeginAdd(u) == /\ Idle /\ AddCauses(disk.table, Blk(u)) = {}
-               /\ prog' = AddProg(disk.table, disk, Blk(u)) /\ op' = [k |-> "add", u |-> u]
+               /\ prog' = (IF AddOrder = "lib" THEN AddProg(disk.table, disk, Blk(u)) ELSE AddProgBytesFirst(disk.table, disk, Blk(u)))
+               /\ op' = [k |-> "add", u |-> u]
                /\ base' = disk /\ done' = 0 /\ UNCHANGED <<disk, torn>>
 BeginRem(t) == /\ Idle /\ RemCauses(disk.table, t) = {}
                /\ prog' = RemProg(disk.table, disk, t) /\ op' = [k |-> "rem", u |-> t]
@@ -114,6 +116,11 @@ InvRemOneSided == op.k = "rem" => (disk.data = base.data \/ disk.table = Final.t
 
 \* NOT invariants (checked separately, the counterexamples are replayed on the library)
 TornSound == RangesOK(disk) /\ NoOverlap(disk)
+\* what-if: with the bytes written BEFORE the entry every crash point of an add is a well-formed
+\* file whose old blocks are intact (MC_torn_alt.cfg, AddOrder = "bytes_first": HOLDS; with the
+\* library's order it is what TornSound refutes).  For remove no reordering of the four effects
+\* helps: the table and the bytes describe each other, and whichever moves first is wrong meanwhile.
+TornSoundAdd == op.k = "add" => (TornSound /\ InvAddSafe)
 TornRemReadable ==
   op.k = "rem" =>
     \A i \in LiveSlots(disk) : disk.table[i].type # op.u =>
